@@ -7,12 +7,15 @@ set_option linter.unusedSimpArgs false
 namespace EPV.SeqType
 
 /-- domain of `match_eq_spec`, following the recursion of the matcher: names are atomic type names,
-documents reached by a kind test have at most one element child, and no map / array item meets a typed
-function test (finding F18i) -/
+documents reached by a kind test have at most one element child (values of maps and members of arrays that
+meet a typed function test are judged against its return type) -/
 def domT : Ty → List Item → Bool
   | .empty, _ => true
   | .leaf l _, v => l.isAtomicName && docsWellFormed v
-  | .func _ _, v => !hasMapArray v
+  | .func _ r, v => v.all (fun x => match x with
+      | .map es => domT r [] && es.all (fun e => domT r e.2)
+      | .array ms => ms.all (fun mem => domT r mem)
+      | _ => true)
   | .map _ vt _, v => v.all (fun x => match x with
       | .map es => es.all (fun e => domT vt e.2)
       | _ => true)
@@ -24,6 +27,8 @@ def domT : Ty → List Item → Bool
 structure SpecAgree (tb : Tables) (st : SpecTables) (xsd11 : Bool) : Prop where
   atomic : ∀ c t, instAtomic tb xsd11 c t = specAtomic st c t
   numeric : ∀ c, tb.isNumeric c = specNumeric st c
+  anyAtomic : tb.anyAtomic = st.anyAtomicIdx
+  integer : tb.integer = st.integerIdx
 
 def itemDocOK' : Item → Bool
   | .node .document _ kids _ => kids.length ≤ 1
@@ -110,18 +115,44 @@ theorem matchSt_eq_spec (tb : Tables) (st : SpecTables) (xsd11 : Bool) (ha : Spe
     intro x hx
     exact matchLeaf_eq_spec tb st xsd11 ha l x hd.1 (docsWellFormed_mem' v hd.2 x hx)
   | .func a r, v, hd => by
-    simp only [domT, Bool.not_eq_true'] at hd
+    simp only [domT, List.all_eq_true] at hd
     rw [matchSt_eq_seqMatch _ _ _ _ _ (by simp)]
     simp only [specMatch, Ty.ownOcc]
     apply seqMatch_eq_ok
     intro x hx
-    have hm := hasMapArray_false_mem v hd x hx
+    have hdx := hd x hx
     cases x with
     | func sa sr => simp [itemFn, funcItemTest]
-    | map es => simp [Item.isMapArray] at hm
-    | array ms => simp [Item.isMapArray] at hm
     | atom c => simp [itemFn]
     | node k n kids root => simp [itemFn]
+    | map es =>
+      simp only [Bool.and_eq_true, List.all_eq_true] at hdx
+      simp only [itemFn]
+      cases a with
+      | nil => rfl
+      | cons k as =>
+        cases as with
+        | cons _ _ => rfl
+        | nil =>
+          simp only []
+          rw [matchSt_eq_spec tb st xsd11 ha r [] hdx.1,
+            allE_eq_ok _ (fun e => specMatch st (isRestriction tb) r e.2) es
+              (fun e he => matchSt_eq_spec tb st xsd11 ha r e.2 (hdx.2 e he)), ha.anyAtomic]
+          cases isRestriction tb (.leaf (.atomic st.anyAtomicIdx) .one) k <;>
+            cases specMatch st (isRestriction tb) r [] <;> simp [andE]
+    | array ms =>
+      simp only [List.all_eq_true] at hdx
+      simp only [itemFn]
+      cases a with
+      | nil => rfl
+      | cons k as =>
+        cases as with
+        | cons _ _ => rfl
+        | nil =>
+          simp only []
+          rw [allE_eq_ok _ (fun m => specMatch st (isRestriction tb) r m) ms
+              (fun m hm => matchSt_eq_spec tb st xsd11 ha r m (hdx m hm)), ha.integer]
+          cases isRestriction tb (.leaf (.atomic st.integerIdx) .one) k <;> simp
   | .map k vt o, v, hd => by
     simp only [domT, List.all_eq_true] at hd
     rw [matchSt_eq_seqMatch _ _ _ _ _ (by simp)]
